@@ -371,6 +371,18 @@ func genC12Case(t *rapid.T) *C12Case {
 			// a call that is turned down before anything is validated (nil / typed nil / wrong kind of
 			// source) but came loaded with rules, directly followed by an ordinary call of the same entry
 			// point: what the rejected call brought along stays with it
+			if rapid.IntRange(0, 2).Draw(t, "ruleLessAfterLoaded") == 1 {
+				// a Url / Map call loaded with rules, directly followed by validators that are given NO rule
+				// set (UrlForFn, NewVMap().Valid ...): they have nothing to judge by
+				loaded := genScalarCall(t, mg)
+				loaded.Carrier = rapid.SampledFrom([]string{"url", "map"}).Draw(t, "loadedCarrier")
+				loaded.T, loaded.Val, loaded.BadSrc, loaded.Missing, loaded.ListMissing, loaded.Again = desc.Scalar("string"), desc.Str(""), "", false, nil, nil
+				loaded.Rules = append([]string{"required|from the loaded call"}, loaded.Rules...)
+				loaded.NoModel = true
+				bases = append(bases, base{call: &Call{V: loaded}, regen: func() (desc.V, bool) { return desc.V{}, false },
+					then: &Call{H: &HelperCall{Name: rapid.SampledFrom([]string{"urlforfn", "norules"}).Draw(t, "ruleLess"), Arg: "x"}}})
+				break
+			}
 			if rapid.Bool().Draw(t, "rejectedVar") {
 				bad := genScalarCall(t, mg)
 				bad.Carrier, bad.CallFns, bad.Others, bad.Again, bad.Missing, bad.ListMissing = "var", nil, nil, nil, false, nil
@@ -398,7 +410,7 @@ func genC12Case(t *rapid.T) *C12Case {
 			bases = append(bases, base{call: &Call{S: bad}, regen: func() (desc.V, bool) { return desc.V{}, false }, then: &Call{S: good}})
 		case 7:
 			// an exported helper (they draw from the same buffer pool as the validators), incl. the error path of the JSON dumper
-			h := &HelperCall{Name: rapid.SampledFrom([]string{"dump", "dumpjson", "dumpjson-bad", "dumpjson-bad", "explain", "genkv", "split", "timefmt", "strescape"}).Draw(t, "helper"), Arg: genString(t, "harg", true)}
+			h := &HelperCall{Name: rapid.SampledFrom([]string{"dump", "dumpjson", "dumpjson-bad", "dumpjson-bad", "explain", "genkv", "split", "timefmt", "strescape", "urlforfn", "norules", "urlforfn"}).Draw(t, "helper"), Arg: genString(t, "harg", true)}
 			bases = append(bases, base{call: &Call{H: h}, regen: func() (desc.V, bool) { return desc.V{}, false }})
 		case 8:
 			// the error path of the JSON dumper (a value encoding/json cannot encode), directly followed by
